@@ -321,7 +321,7 @@ func (e *Engine) intrinsicFor(fn *ssa.Function) (string, bool) {
 		res = "redirect:" + tgt
 	} else if fn.Synthetic == "package initializer" {
 		res = "noop:pkginit"
-	} else if _, ok := intrinsics[name]; ok {
+	} else if _, ok := intrinsics[name]; ok && !e.cfg.realFunc(name) {
 		res = name
 	} else {
 		for i, p := range noopPrefixes {
